@@ -33,6 +33,14 @@ type simCase struct {
 	Flags       []string
 	Split       []string
 	FinalStates bool
+	// LAYOUT <ts> <par> <st> <pre> (optional, before END): where ow-sim is told to find things.
+	//   ts/par/st: 0 = in the structure file in.h5 (no flag);
+	//              1 = ONLY in a separate file given by -input-timeseries / -parameters / -initial-states;
+	//              2 = in the separate file, and the structure file holds a DIFFERENT (decoy) copy that must be ignored
+	//                  (for ts also decoy inputs datasets of models that have no stored inputs)
+	//   pre: 0 = no out.h5 beforehand; 1 = a stale out.h5 exists and -overwrite is given; 2 = a stale out.h5 exists,
+	//        no -overwrite: ow-sim must refuse (exit 1) and leave the file alone; 3 = -overwrite given, nothing to overwrite
+	LayoutTS, LayoutPar, LayoutSt, LayoutPre int
 }
 
 func (c *simCase) isSplit(name string) bool {
@@ -215,6 +223,13 @@ func parseCase(fn string) (c *simCase, err error) {
 	}
 	t.expect("FINALSTATES")
 	c.FinalStates = t.bool01()
+	if t.i < len(t.t) && t.t[t.i] == "LAYOUT" {
+		t.next()
+		c.LayoutTS = t.int()
+		c.LayoutPar = t.int()
+		c.LayoutSt = t.int()
+		c.LayoutPre = t.int()
+	}
 	t.expect("END")
 	return c, nil
 }
